@@ -46,7 +46,7 @@ func init() {
 			"C2 state declared goroutine-confined is only accessed in functions reachable (call graph) from its owner goroutine's entry; C3 fields used with sync/atomic are only used with sync/atomic; C4 every other field of a lock-bearing type is never stored to on a shared object outside constructors/option closures (setup-time setters listed); " +
 			"C5 the held→acquired lock graph is acyclic, no mutex is re-acquired while held on the same object, and no WaitGroup.Wait/blocking channel operation happens under a lock its counterpart can need; D4 the close of each lifecycle channel and the isClosed/Add/go start sequence run under the same mutex; H3 every plain send on a channel that a Close method closes is made on the not-closed branch of a closed test while a lock is read-held that the closing site holds exclusively (Close racing with traffic cannot send on a closed channel).",
 		notDecided:  "races on memory the table does not name (fields of pion/rtp, pion/rtcp, x/time/rate objects; the Attributes map handed to packetdump's logger goroutine), lost updates that are not data races, liveness, stalls while a private lock is held across a downstream Write (noted, not a violation)",
-		sels:        []sel{s("C9"), s("C8"), s("C7"), s("C1"), s("C2"), s("C3"), s("C4"), s("C5"), s("C6"), s("D4"), s("H3")},
+		sels:        []sel{s("O4"), s("C9"), s("C8"), s("C7"), s("C1"), s("C2"), s("C3"), s("C4"), s("C5"), s("C6"), s("D4"), s("H3")},
 		assumptions: append([]string{"locks are identified by (struct type, field): two instances of one type are not distinguished", "the guard table and confinement table are hand-confirmed; every row must resolve to at least one access or the check fails", "exported methods are entry points with an empty lockset"}, stdAssume...),
 	})
 	def(&propDef{
@@ -78,7 +78,7 @@ func init() {
 			"T1 — retain/release typestate: every packet obtained from RTPBuffer.Get is released exactly once after its last use, every slot overwrite in RTPBuffer.Add/Clear releases the previous occupant exactly once, Get hands out only packets that passed a successful Retain (a double release would recycle a buffer that is still being retransmitted); " +
 			"C1 — ring, stream table and reference count are only touched under their mutexes; A1 — the original packet is forwarded exactly once after the copy; D5 — unbind removes the stream's ring.",
 		notDecided:  "which sequence numbers the ring holds (window arithmetic seq%size, half-range tests), RTX header field values, the padding arithmetic, that the retransmission goroutine has finished when Close returns (known finding under C11)",
-		sels: []sel{s("O2", `inspected|pkg/nack`), s("U1", `\|(internal/rtpbuffer|pkg/nack)[.:]`), s("T6"), s("W1", `\|(internal/rtpbuffer|pkg/nack)[.:]`), s("V1", `\|(internal/rtpbuffer|pkg/nack)[.:]`), so("T5", `rtpbuffer`), so("C6", `nack\..*lookup-delete`), s("J5", `\|(internal/rtpbuffer|pkg/nack)[.:]`), so("T4", `rtpbuffer`), s("C8", `nack\.|inspected`), s("J4", `\|(internal/rtpbuffer|pkg/nack)[.:]`), so("F6", `rtpbuffer`), s("P3", `rtpbuffer\.RTPBuffer`), s("F2", `rtpbuffer`), s("B", `nack\.\(\*ResponderInterceptor\)`), s("T1"), so("T2"), s("C1", `pkg/nack\.(localStream|ResponderInterceptor)\.|rtpbuffer\.RetainablePacket\.`),
+		sels: []sel{s("O2", `inspected|pkg/nack`), s("U2", `\|(internal/rtpbuffer|pkg/nack)[.:]`), s("U1", `\|(internal/rtpbuffer|pkg/nack)[.:]`), s("T6"), s("W1", `\|(internal/rtpbuffer|pkg/nack)[.:]`), s("V1", `\|(internal/rtpbuffer|pkg/nack)[.:]`), so("T5", `rtpbuffer`), so("C6", `nack\..*lookup-delete`), s("J5", `\|(internal/rtpbuffer|pkg/nack)[.:]`), so("T4", `rtpbuffer`), s("C8", `nack\.|inspected`), s("J4", `\|(internal/rtpbuffer|pkg/nack)[.:]`), so("F6", `rtpbuffer`), s("P3", `rtpbuffer\.RTPBuffer`), s("F2", `rtpbuffer`), s("B", `nack\.\(\*ResponderInterceptor\)`), s("T1"), so("T2"), s("C1", `pkg/nack\.(localStream|ResponderInterceptor)\.|rtpbuffer\.RetainablePacket\.`),
 			s("A1", `nack\.\(\*ResponderInterceptor\)`), s("D5", `nack\.ResponderInterceptor`)},
 		assumptions: stdAssume,
 	})
@@ -117,7 +117,7 @@ func init() {
 		id: "C20", title: "Sequence-number unwrapping: congruence and non-negativity clauses",
 		explanation: "Decides one clause by abstract interpretation of (*Unwrapper).Unwrap's SSA: J1 — with symbols i (the uint16 input) and L (the previous result), every integer value is tracked as an affine form a·i + b·L + c over ℤ/2^16 (constants reduced modulo 65536, width conversions are class-preserving, φ joins must agree, branches are ignored so the clause holds on every path); at every return the result and the stored state are exactly 1·i + 0·L + 0. This proves for all inputs and all prior states that the value returned is congruent to the input modulo 2^16. J2 — by induction on the state (hypothesis: previous result ≥ 0): every path alternative of the stored state and of the returned value, written as an integer linear form over the previous state and the unsigned quantities, is a sum of non-negative terms or is guarded by a dominating `E >= 0` branch whose E is exactly that linear form; hence the result is non-negative for every input sequence.",
 		notDecided:  "the ±2^15 proximity to the previous result (needs interval reasoning coupled to the half-range predicate), and every NTP clause (float64 rounding, monotonicity, 1 µs round trip) — numerical, not decidable by a structural rule",
-		sels:        []sel{s("U1", `\|internal/sequencenumber[.:]`), s("W1", `\|internal/sequencenumber[.:]`), s("V1", `\|internal/sequencenumber[.:]`), s("J5", `\|internal/sequencenumber[.:]`), s("J4", `\|internal/sequencenumber[.:]`), s("J3", `\|internal/sequencenumber[.:]`), s("J1"), s("J2")},
+		sels:        []sel{s("U2", `\|internal/sequencenumber[.:]`), s("U1", `\|internal/sequencenumber[.:]`), s("W1", `\|internal/sequencenumber[.:]`), s("V1", `\|internal/sequencenumber[.:]`), s("J5", `\|internal/sequencenumber[.:]`), s("J4", `\|internal/sequencenumber[.:]`), s("J3", `\|internal/sequencenumber[.:]`), s("J1"), s("J2")},
 		assumptions: std,
 	}
 }
@@ -129,7 +129,7 @@ func init() {
 		explanation: "Decides the structural clauses the statement singles out: G1 — in every function that walks []*rtcp.RecvDelta with a cursor, no instruction that advances the cursor is control-dependent (post-dominator based, transitively) on a condition derived from a lookup in long-lived state (a comma-ok map lookup on a field, or a (T,bool) lookup predicate such as feedbackHistory.get): the arrival time decoded for a packet is independent of whether neighbouring packets are still in the history; " +
 			"G2 — in every symbol loop, the counter that feeds the attribution key (feedbackHistoryKey.sequenceNumber / acknowledgement.sequenceNumber) is advanced exactly once on every path through the loop body (path counting), or is the range index; F1 — every index into RecvDeltas / packet-derived slices is guarded; E2 — the flag that lets history.delete release the TWCC mapping is actually set.",
 		notDecided:  "arrival-time arithmetic (reference time ×64 ms, 250 µs deltas, RFC 8888 offsets), LRU contents of the sent-packet history, that each sent packet is reported at most once and in send order (value properties of history.buildReport), zero-valued acknowledgements emitted for unknown packets",
-		sels:        []sel{s("O2", `inspected|rtpfb`), s("A9"), s("W1", `\|(pkg/rtpfb|internal/cc)[.:]`), s("V1", `\|(pkg/rtpfb|internal/cc)[.:]`), s("J5", `\|(pkg/rtpfb|internal/cc)[.:]`), s("F7"), s("G3", `rtpfb`), s("P3", `rtpfb\.history`), s("J3", `\|(pkg/rtpfb|internal/cc)[.:]`), so("G1"), so("G2"), so("F1", `rtpfb\.convertTWCC|FeedbackAdapter|rtpfb\.convert`), so("E2", `rtpfb\.history`), so("E1", `rtpfb\.history`)},
+		sels:        []sel{s("O4", `inspected|rtpfb|internal/cc`), s("O2", `inspected|rtpfb`), s("A9"), s("W1", `\|(pkg/rtpfb|internal/cc)[.:]`), s("V1", `\|(pkg/rtpfb|internal/cc)[.:]`), s("J5", `\|(pkg/rtpfb|internal/cc)[.:]`), s("F7"), s("G3", `rtpfb`), s("P3", `rtpfb\.history`), s("J3", `\|(pkg/rtpfb|internal/cc)[.:]`), so("G1"), so("G2"), so("F1", `rtpfb\.convertTWCC|FeedbackAdapter|rtpfb\.convert`), so("E2", `rtpfb\.history`), so("E1", `rtpfb\.history`)},
 		assumptions: std,
 	}
 	props["C16"] = &propDef{
@@ -138,7 +138,7 @@ func init() {
 			"H2 — in the publishing function every pacer.SetTargetBitrate call and every invocation of the change callback receives the stored value itself (same SSA value or a reload of the field), and GetTargetBitrate returns that field (under SendSideBWE.lock by C1); " +
 			"H3 — every call path to a plain send on a channel that a Close method closes passes a closed test on its not-closed branch while a lock is read-held that the closing site holds exclusively (no send on a closed pipe, documented closed error otherwise); C5 — that wait-under-lock is deadlock-free; C1/C2 rows of the gcc types.",
 		notDecided:  "anything about the floating-point pipeline itself (rate = bits/dt with dt = 0, 0/0 in increase) beyond the fact that the clamp absorbs it; that feedback never blocks for long (consumers are goroutines fed through unbuffered pipes)",
-		sels:        []sel{s("D9", `pkg/gcc\.`), s("D8", `pkg/gcc\.`), s("U1", `\|pkg/gcc[.:]`), s("W1", `\|pkg/(gcc|cc)[.:]`), s("V1", `\|pkg/(gcc|cc)[.:]`), s("C9", `inspected|gcc\.`), s("A5", `pkg/(cc|gcc)\.`), s("C7", `pkg/gcc\.`), s("H1"), s("H2"), s("H3"), s("C5", `gcc\.`), s("C1", `pkg/gcc\.`), s("C2", `pkg/gcc\.`)},
+		sels:        []sel{s("D9", `pkg/gcc\.`), s("D8", `pkg/gcc\.`), s("U2", `\|pkg/gcc[.:]`), s("U1", `\|pkg/gcc[.:]`), s("W1", `\|pkg/(gcc|cc)[.:]`), s("V1", `\|pkg/(gcc|cc)[.:]`), s("C9", `inspected|gcc\.`), s("A5", `pkg/(cc|gcc)\.`), s("C7", `pkg/gcc\.`), s("H1"), s("H2"), s("H3"), s("C5", `gcc\.`), s("C1", `pkg/gcc\.`), s("C2", `pkg/gcc\.`)},
 		assumptions: std,
 	}
 }
@@ -173,7 +173,7 @@ func init() {
 		explanation: "Decides: S1 — every store into a field of the exported *StreamStats structs in the recorder's record* methods is dominated by a branch condition computed from the recorder's own SSRC (header SSRC, MediaSSRC, report SSRC or DestinationSSRC membership compared with r.ssrc): a counter only moves for traffic addressed to that SSRC; S2 — the loops over the packets of a compound RTCP have no early exit (every packet of the compound is visited); S3 — no branch inside such a loop tests a loop-carried boolean that was computed from the recorder's SSRC for an earlier packet (each packet is judged by itself); " +
 			"A1/A2 on the four stats closures — every forwarded / successfully read packet is handed to the recorder exactly once and a failed read never is; C1/C6 — latestStats is only read and updated under recorder.ms in one critical section (no lost update).",
 		notDecided:  "every formula: packets lost as expected-minus-received, jitter, RTT from LSR/DLSR and DLRR, fraction lost, NTP conversions — numerical",
-		sels:        []sel{s("U1", `\|pkg/stats[.:]`), s("S6"), s("W1", `\|pkg/stats[.:]`), s("V1", `\|pkg/stats[.:]`), s("E4", `\|pkg/stats[.:]`), s("K4", `\|pkg/stats[.:]`), s("P3", `stats\.internalStats`), s("S1"), s("S2"), s("S3"), s("S4"), s("S5"), s("A1", `stats\.`), s("A2", `stats\.`), s("C1", `stats\.`), so("C6", `stats\.`)},
+		sels:        []sel{s("U2", `\|pkg/stats[.:]`), s("U1", `\|pkg/stats[.:]`), s("S6"), s("W1", `\|pkg/stats[.:]`), s("V1", `\|pkg/stats[.:]`), s("E4", `\|pkg/stats[.:]`), s("K4", `\|pkg/stats[.:]`), s("P3", `stats\.internalStats`), s("S1"), s("S2"), s("S3"), s("S4"), s("S5"), s("A1", `stats\.`), s("A2", `stats\.`), s("C1", `stats\.`), so("C6", `stats\.`)},
 		assumptions: std,
 	}
 }
@@ -242,6 +242,9 @@ func init() {
 	add("C12", "E5 a node taken off the front of a doubly linked list is cut off from it: after the root advances (`q.next = q.next.next`) every path resets the new first node's back pointer or finds the list empty — otherwise every node ever popped stays reachable through the chain of back pointers while the list is not empty.")
 	add("C18", "E5 the jitter buffer's list does not keep popped nodes reachable through the new head's back pointer.")
 	add("C09", "W1 no successful return hands back a named result that nothing ever assigned while sibling returns compute that position (the running reference time of the TWCC chunk unpackers restarts at zero).")
+	add("C09", "O4 the factory hands every interceptor a history of its own: nothing stored into the interceptor that NewInterceptor builds is a stateful object (or a struct referring to one) taken from the factory.")
+	add("C10", "O4 no NewInterceptor method shares a stateful object (mutex, map or channel inside) between the interceptors it builds.")
+	add("C04", "U2 nothing reachable from RTPBuffer.Add sets `started` back to false: a jump handled by clearing the whole ring must not make the next (possibly late) packet a first packet that re-seeds highestAdded.")
 	add("C04", "U1 in the function that has the ring's first-packet branch (`if !started { started = true; highestAdded = seq … }`), no field that branch initialises is read before the flag test: a fast path ahead of it would file the first packet as the successor of number 0.")
 	add("C20", "U1 the unwrapper's last value is not read ahead of its first-call test.")
 	add("C19", "U1 no statistics field initialised by a first-packet branch is read ahead of that branch's flag test.")
